@@ -382,6 +382,13 @@ func init() {
 					return err
 				}
 			}
+			// names as long as a file system allows (255 and 254 bytes) in directories that cross the estimate
+			for _, nl := range [][2]int{{905, 255}, {910, 254}, {890, 255}} {
+				ic := &ImportCase{Fam: "import", ID: fmt.Sprintf("longnames-%d-%d", nl[0], nl[1]), Tree: &TreeSpec{Name: "root", Kind: "dir"}, Wide: nl[0], NameLen: nl[1]}
+				if err := runImportCase(ic, tr); err != nil {
+					return err
+				}
+			}
 			// plain (short-named) directories around typical readdir batch sizes, at the root and one level down
 			for _, n := range []int{255, 256, 257, 1023, 1024, 1025, 2048, 4096} {
 				ic := &ImportCase{Fam: "import", ID: fmt.Sprintf("batch-%d", n), Tree: &TreeSpec{Name: "root", Kind: "dir"}, Wide: n, NameLen: 8}
